@@ -17,6 +17,12 @@ open Refinery Refinery.Model.StressRelief Oracle
 
 def timeoutNs : Int := Refinery.Gen.Stress.peerEntryTimeoutNs
 
+/-- `false`: the code as it is.  `true`: the repaired `UpdateFromConfig` (a deactivation level above the
+activation level is clamped to it, `clampCfg`): the model clamps at `reload`, the monitor takes the
+clamped thresholds as the ones in force and reports any "level ≥ activation and relief off" as a plain
+`C15:on-when-reaches` violation (theorem `Props.C15.on_when_reaches`).  Flip together with the repair. -/
+def variant : Bool := true
+
 def dump (r : Reports) : String :=
   let ks := isort (AList.keys r)
   if ks.isEmpty then "-" else
@@ -94,7 +100,8 @@ def sMon (m : MSt) (op : List String) (exts : List (List String)) (obs : Option 
     | some md, some a, some d, some mn, some on =>
       let fs := if (on == 1) != m.on then
         [fail "C15:relief-changed-outside-recalc" s!"Stressed() went {b01 m.on} -> {on} at a reload"] else []
-      ({ m with cfg := { mode := md, act := a, deact := d, minDur := mn }, valid := valid, on := (on == 1) }, fs)
+      let c : Cfg := { mode := md, act := a, deact := d, minDur := mn }
+      ({ m with cfg := if variant then clampCfg c else c, valid := valid, on := (on == 1) }, fs)
     | _, _, _, _, _ => (m, [fail "C15:unparsable-observation" s!"reload answered {obs.getD "-"}"])
   | ["recalc"] =>
     match nat "local", nat "cluster", nat "level", nat "on" with
@@ -142,7 +149,7 @@ def sMon (m : MSt) (op : List String) (exts : List (List String)) (obs : Option 
   | _ => (m, [])
 
 def comp : Component St MSt where
-  init := fun _ => init timeoutNs
+  init := fun _ => init timeoutNs variant
   step := sStep
   minit := fun _ => {}
   mon := sMon
